@@ -478,10 +478,12 @@ End KindUndo.
 Definition dom_le (l l' : ledger) : Prop := forall a, get_state l a <> None -> get_state l' a <> None.
 
 (* [l'] agrees with [l] on everything the ledger properties speak about: accounts extensionally (an absent account
-   = an all-zero account, but every account present in [l] is present in [l']), delegate table, staked total.
+   = an all-zero account, but every account present in [l] is present in [l']), delegate table (up to the relation
+   [Rd]: equality, or equality up to the order of the funds inside each pool), staked total.
    The wallet indexes (intx, outtx, txh) and the delegate history may differ. *)
-Definition leqv (l l' : ledger) : Prop :=
-  same_accounts l' l /\ dom_le l l' /\ dlgs l' = dlgs l /\ staked l' = staked l.
+Definition leqv_g (Rd : list (N * dlg) -> list (N * dlg) -> Prop) (l l' : ledger) : Prop :=
+  same_accounts l' l /\ dom_le l l' /\ Rd (dlgs l) (dlgs l') /\ staked l' = staked l.
+Definition leqv : ledger -> ledger -> Prop := leqv_g eq.
 
 Lemma leqv_refl l : leqv l l.
 Proof. split; [intros a; reflexivity|]. split; [intros a Ha; exact Ha|]. split; reflexivity. Qed.
@@ -518,6 +520,27 @@ Proof.
   intros a Ha. rewrite get_state_put. destruct (a =? sender); [discriminate|exact Ha].
 Qed.
 
+(* the delegate history is only written by a full unstake (under the transaction id) and by a staker reward *)
+Lemma dhist_apply_inputs ins : forall l l', apply_inputs l ins = Ok l' -> dhist l' = dhist l.
+Proof.
+  induction ins as [|[amt sender] ins IH]; intros l l' H; cbn [apply_inputs] in H.
+  - injection H as <-. reflexivity.
+  - opt_inv H. guard_inv H. rewrite (IH _ _ H). reflexivity.
+Qed.
+
+Lemma dhist_apply_outputs_nopos outs : forall l bh txid, no_pos outs ->
+  dhist (fst (apply_outputs l bh outs txid)) = dhist l.
+Proof.
+  induction outs as [|o outs IH]; intros l bh txid Hnp; cbn [apply_outputs]; [reflexivity|].
+  inversion Hnp as [|? ? Ho Hnp']; subst.
+  destruct (safe_add _ (o_amt o)); [|reflexivity]. rewrite Ho, IH by exact Hnp'. reflexivity.
+Qed.
+
+Lemma dhist_stats_staked l amt l' : stats_staked l amt = Ok l' -> dhist l' = dhist l.
+Proof. unfold stats_staked. destruct (_ <? _); [discriminate|]. intros [= <-]. reflexivity. Qed.
+Lemma dhist_stats_unstaked l amt l' : stats_unstaked l amt = Ok l' -> dhist l' = dhist l.
+Proof. unfold stats_unstaked. destruct (_ <? _); [discriminate|]. intros [= <-]. reflexivity. Qed.
+
 Section TxUndo.
 Variable cfg : config.
 
@@ -549,6 +572,40 @@ Proof.
   - destruct (sa <? tx_fee t); [discriminate|]. injection H as <-. exact Hle.
 Qed.
 
+Lemma kind_apply_dhist l t st top l1k st1 k :
+  kind_apply cfg l t st top = Ok (l1k, st1) -> k <> tx_id t -> nget (dhist l1k) k = nget (dhist l) k.
+Proof.
+  intros H Hk. unfold kind_apply in H.
+  destruct (tx_data t) as [os|nl name id|nw pv|a id pu|a id].
+  - injection H as <- _. reflexivity.
+  - destruct (tx_version t =? 2); [|injection H as <- _; reflexivity]. guard_inv H. injection H as <- _. reflexivity.
+  - destruct (tx_version t =? 3); [|injection H as <- _; reflexivity].
+    guard_inv H. guard_inv H. guard_inv H. injection H as <- _. reflexivity.
+  - destruct (tx_version t =? 4); [|injection H as <- _; reflexivity].
+    guard_inv H. guard_inv H. bind_inv H. injection H as <- _.
+    unfold apply_stake in E. bind_inv E. bind_inv E. bind_inv E. injection E as <-.
+    cbn [put_dlg set_dlgs dhist].
+    match goal with Hs : stats_staked _ _ = Ok _ |- _ => rewrite (dhist_stats_staked _ _ _ Hs) end. reflexivity.
+  - destruct (tx_version t =? 5); [|injection H as <- _; reflexivity].
+    guard_inv H. guard_inv H. bind_inv H. injection H as <- _.
+    unfold apply_unstake in E. bind_inv E. bind_inv E. guard_inv E. guard_inv E. bind_inv E. injection E as <-.
+    cbn [put_dlg set_dlgs dhist].
+    match goal with Hs : stats_unstaked _ _ = Ok _ |- _ => rewrite (dhist_stats_unstaked _ _ _ Hs) end.
+    destruct (_ && _); [|reflexivity].
+    cbn [dhist set_dhist]. apply nget_nset_other. exact Hk.
+Qed.
+
+Lemma apply_tx_dhist l t h bh top l1 k :
+  apply_tx cfg l t h bh top = Ok l1 -> k <> tx_id t -> nget (dhist l1) k = nget (dhist l) k.
+Proof.
+  intros H Hk. rewrite apply_tx_unfold in H. cbn zeta in H.
+  opt_inv H. guard_inv H. bind_inv H. destruct a as [l1k st1]. bind_inv H. bind_inv H. injection H as <-.
+  cbn [dhist set_txh set_outtx].
+  rewrite dhist_apply_outputs_nopos by (eapply state_outputs_nopos; eassumption).
+  rewrite (dhist_apply_inputs _ _ _ E1). cbn [dhist put_state set_accts].
+  eapply kind_apply_dhist; eassumption.
+Qed.
+
 (* inputs then outputs of a transaction applied to [l2]; then, from any ledger with the same accounts, outputs
    then inputs removed: every account is back to its value in [l2] *)
 Lemma undo_accounts t signer tot l2 l3 l4 e outs bh txid :
@@ -558,6 +615,7 @@ Lemma undo_accounts t signer tot l2 l3 l4 e outs bh txid :
   apply_inputs l2 (state_inputs cfg t signer) = Ok l3 ->
   apply_outputs l3 bh outs txid = (l4, e) ->
   e = None /\ dlgs l4 = dlgs l2 /\ staked l4 = staked l2 /\ dhist l4 = dhist l2 /\ dom_le l2 l4 /\
+  (forall a, inc (acct_at l4 a) = inc (acct_at l2 a) + out_cnt outs a /\ nonce (acct_at l4 a) = nonce (acct_at l2 a)) /\
   forall l', same_accounts l' l4 -> dom_le l4 l' ->
     exists l1' l2', remove_outputs l' bh outs = (l1', None) /\
       remove_inputs l1' (state_inputs cfg t signer) = Ok l2' /\
@@ -574,6 +632,7 @@ Proof.
   destruct (apply_outputs_pointwise outs l3 bh txid l4 Hnp ltac:(lia) Hinc3 Eao) as (A1 & A2 & A3 & A4 & A5 & A6).
   split; [reflexivity|]. split; [congruence|]. split; [congruence|]. split; [congruence|].
   split; [intros a Ha; apply A6, P7; exact Ha|].
+  split; [intros a; rewrite A1, P1; cbn [inc nonce]; split; reflexivity|].
   intros l' Hsame Hdom.
   destruct (remove_outputs_pointwise outs l' bh Hnp) as (l1' & Hrm & R1 & R2 & R3 & R4 & R5).
   { intros o Hin'. apply Hdom, A5. exact Hin'. }
@@ -598,24 +657,39 @@ Proof.
   - intros a Ha. apply Q5, R5, Hdom, A6, P7. exact Ha.
 Qed.
 
-(* RemoveTxFromState is the exact inverse of ApplyTxToState, for every kind of transaction, on accounts, delegate
-   table and staked total.  [l'] is any ledger that agrees with the result [l1] of the application. *)
-Theorem undo_tx l t h bh top_h l1 tot :
-  SInv l -> FPos l -> total_bal l < two64 -> wf_tx cfg t -> tx_total cfg t = Some tot ->
+(* ---- whole transactions, generically in the relation on delegate tables ---- *)
+Section Gen.
+Variable Rd : list (N * dlg) -> list (N * dlg) -> Prop.
+
+(* what the generic composition needs to know about the kind-specific part on [l] *)
+Definition kind_undo_ok (l : ledger) (t : tx) : Prop :=
+  forall st top l1k st1, kind_apply cfg l t st top = Ok (l1k, st1) ->
+  accts l1k = accts l /\ bal st1 = bal st /\ nonce st1 = nonce st /\ inc st1 = inc st /\
+  forall l' top', Rd (dlgs l1k) (dlgs l') -> staked l' = staked l1k ->
+    nget (dhist l') (tx_id t) = nget (dhist l1k) (tx_id t) ->
+    exists l2, kind_remove cfg l' t st1 top' = Ok (l2, st) /\
+      Rd (dlgs l) (dlgs l2) /\ staked l2 = staked l /\ accts l2 = accts l' /\ dhist l2 = dhist l'.
+
+(* counters after a transaction *)
+Definition tx_frame (l : ledger) (t : tx) (l1 : ledger) : Prop :=
+  forall a, inc (acct_at l1 a) <= inc (acct_at l a) + tx_nouts t /\ nonce (acct_at l1 a) <= nonce (acct_at l a) + 1.
+
+Theorem undo_tx_gen l t h bh top_h l1 tot :
+  kind_undo_ok l t -> total_bal l < two64 -> wf_tx cfg t -> tx_total cfg t = Some tot ->
   (forall a, inc (acct_at l a) + tx_nouts t < two64) ->
   nonce (acct_at l (addr_of_key (tx_signer t))) + 1 < two64 ->
-  unstake_last l t ->
   apply_tx cfg l t h bh top_h = Ok l1 ->
-  forall l' top', leqv l1 l' -> nget (dhist l') (tx_id t) = nget (dhist l1) (tx_id t) ->
-  exists l2, remove_tx cfg l' t bh top' = Ok l2 /\ leqv l l2 /\ dhist l2 = dhist l'.
+  tx_frame l t l1 /\
+  forall l' top', leqv_g Rd l1 l' -> nget (dhist l') (tx_id t) = nget (dhist l1) (tx_id t) ->
+  exists l2, remove_tx cfg l' t bh top' = Ok l2 /\ leqv_g Rd l l2 /\ dhist l2 = dhist l'.
 Proof.
-  intros HI HP Hb Hwf Htot Hinc Hnonce Hlast Happ l' top' (Hsame & Hdom & Hd' & Hs') Hh'.
+  intros Hkind Hb Hwf Htot Hinc Hnonce Happ.
   rewrite apply_tx_unfold in Happ. cbn zeta in Happ. set (signer := addr_of_key (tx_signer t)) in *.
   opt_inv Happ. rename x into st. guard_inv Happ. apply N.eqb_eq in G.
   assert (Hx : acct_at l signer = st) by (unfold acct_at; rewrite E; reflexivity).
   rewrite Hx in Hnonce. rewrite wadd_small in G by exact Hnonce.
   bind_inv Happ. destruct a as [l1k st1].
-  destruct (undo_kind cfg l t st top_h l1k st1 HI HP Hwf Hlast E0) as (Ha & Hbs & Hns & His & Hk).
+  destruct (Hkind st top_h l1k st1 E0) as (Ha & Hbs & Hns & His & Hk).
   set (st2 := mkacct (bal st1) (wadd (nonce st1) 1) (inc st1) (deleg st1)) in *.
   set (l2 := put_state l1k signer st2) in *.
   bind_inv Happ. rename a into l3. bind_inv Happ. rename a into outs. injection Happ as <-.
@@ -634,7 +708,13 @@ Proof.
     destruct (N.eqb_spec a signer) as [Ea|_]; [rewrite Ea in Hinc; rewrite Hx in Hinc; cbn [inc st2]; lia|lia]. }
   destruct (apply_outputs l3 bh outs (tx_id t)) as [l4 e] eqn:Eao. cbn [fst] in *.
   destruct (undo_accounts t signer tot l2 l3 l4 e outs bh (tx_id t) Hwf Htot E2 ltac:(lia) Hinc2 E1 Eao)
-    as (-> & D4 & S4 & H4 & Dom4 & Hrm).
+    as (-> & D4 & S4 & H4 & Dom4 & Hcnt & Hrm).
+  split.
+  { intros a. change (acct_at (set_txh _ _) a) with (acct_at l4 a).
+    destruct (Hcnt a) as [-> ->]. rewrite Hacct2. pose proof (out_cnt_le_nouts t signer outs a E2) as Hc.
+    destruct (N.eqb_spec a signer) as [Ea|_]; cbv iota; [|lia].
+    rewrite Ea, Hx. cbn [inc nonce st2]. rewrite Hns, His, wadd_small by exact Hnonce. rewrite Ea in Hc. lia. }
+  intros l' top' (Hsame & Hdom & Hd' & Hs') Hh'.
   (* ---- the removal ---- *)
   rewrite remove_tx_unfold. cbn zeta. fold signer. rewrite E2. cbn [bind].
   match goal with |- context [remove_outputs ?l0' bh outs] => set (l0 := l0') end.
@@ -652,7 +732,7 @@ Proof.
   rewrite G, N.eqb_refl. cbn [guard bind].
   replace (nonce st + 1 - 1) with (nonce st1) by lia. rewrite acct_eta.
   destruct (Hk l2' top') as (l3k & Hkr & D3 & S3 & A3 & H3).
-  { rewrite D2. change (dlgs l0) with (dlgs l'). rewrite Hd'. cbn [dlgs set_txh set_outtx]. rewrite D4. reflexivity. }
+  { rewrite D2. change (dlgs l0) with (dlgs l'). cbn [dlgs set_txh set_outtx] in Hd'. rewrite D4 in Hd'. exact Hd'. }
   { rewrite S2. change (staked l0) with (staked l'). rewrite Hs'. cbn [staked set_txh set_outtx]. rewrite S4. reflexivity. }
   { rewrite H2. change (dhist l0) with (dhist l'). rewrite Hh'. cbn [dhist set_txh set_outtx]. rewrite H4. reflexivity. }
   rewrite Hkr. cbn [bind].
@@ -665,6 +745,47 @@ Proof.
     rewrite (get_state_ext l2' l3k a A3). apply Hd2. rewrite Hget2. destruct (N.eqb_spec a signer); [contradiction|exact Ha'].
   - cbn [put_state set_accts dlgs]. exact D3.
   - cbn [put_state set_accts staked]. exact S3.
+Qed.
+End Gen.
+
+(* ---- the exact instance: the delegate table is restored as a list ---- *)
+Lemma kind_undo_ok_eq l t : SInv l -> FPos l -> wf_tx cfg t -> unstake_last l t -> kind_undo_ok eq l t.
+Proof.
+  intros HI HP Hwf Hlast st top l1k st1 H.
+  destruct (undo_kind cfg l t st top l1k st1 HI HP Hwf Hlast H) as (A & B & C & D & Hk).
+  split; [exact A|]. split; [exact B|]. split; [exact C|]. split; [exact D|].
+  intros l' top' Hd Hs Hh. destruct (Hk l' top' (eq_sym Hd) Hs Hh) as (l2 & Hr & D2 & R).
+  exists l2. split; [exact Hr|]. split; [symmetry; exact D2|exact R].
+Qed.
+
+(* RemoveTxFromState is the exact inverse of ApplyTxToState, for every kind of transaction, on accounts, delegate
+   table and staked total.  [l'] is any ledger that agrees with the result [l1] of the application. *)
+Theorem undo_tx l t h bh top_h l1 tot :
+  SInv l -> FPos l -> total_bal l < two64 -> wf_tx cfg t -> tx_total cfg t = Some tot ->
+  (forall a, inc (acct_at l a) + tx_nouts t < two64) ->
+  nonce (acct_at l (addr_of_key (tx_signer t))) + 1 < two64 ->
+  unstake_last l t ->
+  apply_tx cfg l t h bh top_h = Ok l1 ->
+  forall l' top', leqv l1 l' -> nget (dhist l') (tx_id t) = nget (dhist l1) (tx_id t) ->
+  exists l2, remove_tx cfg l' t bh top' = Ok l2 /\ leqv l l2 /\ dhist l2 = dhist l'.
+Proof.
+  intros HI HP Hb Hwf Htot Hinc Hnonce Hlast Happ.
+  exact (proj2 (undo_tx_gen eq l t h bh top_h l1 tot (kind_undo_ok_eq l t HI HP Hwf Hlast) Hb Hwf Htot Hinc Hnonce Happ)).
+Qed.
+
+(* the statement in the form of remove_apply_transfer (removal from the very ledger the application produced) *)
+Corollary remove_apply_tx l t h bh top_h l1 tot :
+  SInv l -> FPos l -> total_bal l < two64 -> wf_tx cfg t -> tx_total cfg t = Some tot ->
+  (forall a, inc (acct_at l a) + tx_nouts t < two64) ->
+  nonce (acct_at l (addr_of_key (tx_signer t))) + 1 < two64 ->
+  unstake_last l t ->
+  apply_tx cfg l t h bh top_h = Ok l1 ->
+  forall top', exists l2, remove_tx cfg l1 t bh top' = Ok l2 /\ same_accounts l2 l /\ dlgs l2 = dlgs l /\ staked l2 = staked l.
+Proof.
+  intros HI HP Hb Hwf Htot Hinc Hnonce Hlast Happ top'.
+  destruct (undo_tx l t h bh top_h l1 tot HI HP Hb Hwf Htot Hinc Hnonce Hlast Happ l1 top' (leqv_refl l1) eq_refl)
+    as (l2 & Hr & (Hs & _ & Hd & Hst) & _).
+  exists l2. split; [exact Hr|]. split; [exact Hs|]. split; [symmetry; exact Hd|exact Hst].
 Qed.
 
 End TxUndo.
